@@ -512,6 +512,34 @@ func statusSwitch(f *Func) map[string]int64 {
 		}
 		return code
 	}
+	// sentinels named by a condition: X, err == X, errors.Is(err, X), and disjunctions of those
+	var sentinels func(e ast.Expr) []string
+	sentinels = func(e ast.Expr) []string {
+		e = ast.Unparen(e)
+		if id := identOf(e); id != nil {
+			if _, isVar := info.Uses[id].(*types.Var); isVar && !isLocal(info.Uses[id]) {
+				return []string{id.Name}
+			}
+			return nil
+		}
+		switch x := e.(type) {
+		case *ast.BinaryExpr:
+			switch x.Op {
+			case token.LOR:
+				return append(sentinels(x.X), sentinels(x.Y)...)
+			case token.EQL:
+				if a := sentinels(x.X); len(a) > 0 {
+					return a
+				}
+				return sentinels(x.Y)
+			}
+		case *ast.CallExpr:
+			if matchCallee(info, x, Callee{"errors", "", "Is"}) && len(x.Args) == 2 {
+				return sentinels(x.Args[1])
+			}
+		}
+		return nil
+	}
 	ast.Inspect(f.Body, func(n ast.Node) bool {
 		switch s := n.(type) {
 		case *ast.SwitchStmt:
@@ -519,12 +547,30 @@ func statusSwitch(f *Func) map[string]int64 {
 				cc := cl.(*ast.CaseClause)
 				code := codeIn(cc.Body)
 				for _, e := range cc.List {
-					if id := identOf(e); id != nil && code >= 0 {
-						out[id.Name] = code
+					if code < 0 {
+						continue
+					}
+					if s.Tag != nil {
+						if id := identOf(e); id != nil {
+							out[id.Name] = code
+						}
+						continue
+					}
+					for _, name := range sentinels(e) {
+						out[name] = code
 					}
 				}
 			}
 		case *ast.IfStmt:
+			if s.Init == nil {
+				if code := codeIn(s.Body.List); code >= 0 {
+					for _, name := range sentinels(s.Cond) {
+						if _, dup := out[name]; !dup {
+							out[name] = code
+						}
+					}
+				}
+			}
 			// if err, ok := err.(*conflictError); ok { ... }
 			if as, ok := s.Init.(*ast.AssignStmt); ok && len(as.Rhs) == 1 {
 				if ta, ok := ast.Unparen(as.Rhs[0]).(*ast.TypeAssertExpr); ok && ta.Type != nil {
